@@ -40,6 +40,40 @@ fn component_bound(rs: &RefSem, t: &Target, enc: Enc) -> u64 {
     }
 }
 
+/// The arguments of the components that contain a listed argument.
+fn merged_members(abs: &Abs, args: &[usize]) -> Vec<usize> {
+    let mut m: Vec<usize> = Vec::new();
+    for c in abs.components().iter() {
+        if args.iter().any(|a| c.contains(a)) {
+            m.extend(c.iter().copied());
+        }
+    }
+    m.sort();
+    m
+}
+
+/// The bound for a query over a *list* of arguments, in the most lenient reading: the solvers (all
+/// but the stable one) merge the components of the listed arguments into one sub-framework and work
+/// on that, so the merged sub-framework counts as one component; the other components count one by
+/// one.  The larger of this and the per-component sum is used.  None: merged part beyond the oracle.
+fn list_bound(abs: &Abs, t: &Target, enc: Enc, args: &[usize], per_component_sum: u64) -> Result<Option<u64>, String> {
+    let merged = merged_members(abs, args);
+    if merged.len() > 16 {
+        return Ok(None);
+    }
+    let mut sum = 0u64;
+    let rs = RefSem::new(&abs.induced(&merged)).map_err(|e| e.0)?;
+    sum += component_bound(&rs, t, enc);
+    for c in abs.components().iter() {
+        if c.iter().any(|a| merged.contains(a)) {
+            continue;
+        }
+        let rs = RefSem::new(&abs.induced(c)).map_err(|e| e.0)?;
+        sum += component_bound(&rs, t, enc);
+    }
+    Ok(Some(sum.max(per_component_sum)))
+}
+
 fn total_bound(abs: &Abs, t: &Target, enc: Enc) -> Result<(u64, usize), String> {
     let comps = abs.components();
     let mut sum = 0u64;
@@ -126,6 +160,17 @@ fn c18_static<T: HLabel>(ctx: &mut Ctx, case: &StaticCase, built: &Built<T>, rng
                         }
                     }
                 }
+                // a long list (4-10 arguments, with repetitions, components interleaved): the bound still is
+                // per component, not per listed argument
+                if case.abs.n >= 4 && rng.pct(30) {
+                    let k = rng.range(4, 10);
+                    let mut l: Vec<usize> = (0..k).map(|_| rng.below(case.abs.n)).collect();
+                    while l.len() > 2 && merged_members(&case.abs, &l).len() > 16 {
+                        l.pop();
+                    }
+                    v.push(Query { kind: t.kind, args: l, cert: rng.pct(50) });
+                    ctx.count("queries/long-argument-lists");
+                }
                 // lists of 2-3 arguments: the bound is per component, whatever the number of listed arguments
                 if case.abs.n >= 2 {
                     let k = 2 + rng.below(2);
@@ -134,7 +179,24 @@ fn c18_static<T: HLabel>(ctx: &mut Ctx, case: &StaticCase, built: &Built<T>, rng
                 }
                 v
             };
+            let per_component_sum = bound;
             for q in queries {
+                // a list of arguments: the components of the listed arguments count as one (merged) component
+                let bound: u64 = if q.args.len() >= 2 {
+                    match list_bound(&case.abs, t, enc, &q.args, per_component_sum) {
+                        Ok(Some(b)) => b,
+                        Ok(None) => {
+                            ctx.inconclusive("merged-sub-framework-beyond-the-oracle");
+                            continue;
+                        }
+                        Err(e) => {
+                            ctx.harness_error(&e);
+                            return;
+                        }
+                    }
+                } else {
+                    per_component_sum
+                };
                 ctx.eval();
                 let h = monitor::new_handle();
                 {
